@@ -113,6 +113,59 @@ CHECKS.update({
             "DESIGN.md section 3, C17"),
 })
 
+CHECKS.update({
+    "C01": ("exploration", "exact transition kernel by enumerating every internal random decision with a scripted generator; stationarity of exp(-H) on the orbit",
+            "The real Transition.sample is re-executed under a scripted generator whose symbolic variates turn every "
+            "comparison the code makes (U < p, integers, slice-variable tests) into a branch of a depth-first path "
+            "controller carrying exact probabilities; all paths from every start state in the source window give the "
+            "exact kernel on a recorded integrator orbit (real systems/integrators, or table doubles with ties, infinite "
+            "/ NaN energies, symmetric step failures and random termination tables), on which sum_i pi_i P(i->j) = pi_j "
+            "is checked to 1e-9; n_step and accept_stat are recomputed on every path. Exact per configuration, "
+            "exploration over configurations (tree depth <= 3 quick / 4 thorough).",
+            "Real integrators are recorded as orbits and replayed (their own correctness is C02/C03/C06); multinomial "
+            "transitions are judged with max_delta_h=1000 because their divergence test is relative to the start state.",
+            "DESIGN.md section 3, C01"),
+    "C09": ("exploration", "history + from-scratch reference: random programs over states/systems, every call compared with a fresh state; cache-defeating state subclass",
+            "Random histories (assign, in-place, copy, read-only copy, pickle, call, flow, new system object; two systems "
+            "sharing up to 5 related states) run on the real code; after every call the result is compared with the same "
+            "call on a freshly built state; integrator steps and all four transitions are repeated on a ChainState "
+            "subclass whose cache never hits and must agree bitwise.",
+            "Judges caching only (values are C05); id-reuse and aliasing mechanisms are recorded known findings.", "DESIGN.md section 3, C09"),
+    "C12": ("fault_enumeration", "single-fault injection at enumerated call indices of every user function + solver exception discipline wrappers",
+            "A fault-free chain fixes the in-transition call counts; each (function, call index, fault kind) is then "
+            "injected alone (NaN / +-inf values everywhere, ValueError / LinAlgError only inside iterative solves, forced "
+            "non-convergence) and the transition must return a finite valid candidate, mirror step failures in the "
+            "statistics flags with accept_stat 0, and let the chain continue; solver wrappers check that only "
+            "ConvergenceError leaves a solve.", "Quick tier strides the call indices; thorough enumerates them up to 40 per function.",
+            "DESIGN.md section 3, C12"),
+    "C13": ("exploration", "per-process event log of post-iteration states (proxy transition) vs returned arrays; cross-mode equality",
+            "A proxy of the last transition logs each post-iteration state and statistics to per-process files; rows of "
+            "every returned trace/statistic array must equal the logged recorded iteration bitwise with the declared "
+            "dtype, lengths exact, no fill value left, final state = last logged state; the same seeded configuration "
+            "re-run with forced / user-directory memmaps and n_process 2, 3, None must return equal arrays and .npy files.",
+            "Bare-array initial states are mapped to chains by call order (sequential only).", "DESIGN.md section 3, C13"),
+    "C14": ("exploration", "cross-run history comparison under perturbed schedules; generator-state snapshot log",
+            "The same seeded configuration is run sequentially and with 2-4 worker processes under per-chain delay patterns "
+            "that permute chain->worker assignment and completion order (both extracted from the logs and listed in the "
+            "evidence); outputs must be bitwise equal; chain c must not depend on the number or start of other chains; "
+            "generator-state snapshots at every iteration start must be duplicate free and advancing.",
+            "Schedule coverage is what the delay patterns produced; < 2 distinct assignments or orders = inconclusive.", "DESIGN.md section 3, C14"),
+    "C15": ("fault_enumeration", "interrupt injection at logged call sites (exception and real SIGINT) vs uninterrupted reference run",
+            "The uninterrupted run logs every in-iteration call of the density, gradient and trace functions; the run is "
+            "repeated with KeyboardInterrupt raised from chosen calls (sequential, multi-process, memmap directory) and "
+            "with a real SIGINT to the process group in a child session; completed rows must equal the reference, "
+            "unreached rows hold fill values, final states sit at the last completed iteration, no later stage starts, "
+            ".npy files are flushed.", "Real-SIGINT runs hit every worker at an arbitrary point; a hang is classified only when the dump shows the parent blocked in results.get().",
+            "DESIGN.md section 3, C15"),
+    "C18": ("exploration", "history + executable reference cache model with call counters; evaluation-count bounds on trajectories",
+            "Counting wrappers on every user model function while the C09 histories run; a minimal per-(state, system) "
+            "reference cache model decides, before each call, which values were already known: a known value must not be "
+            "re-evaluated and nothing is evaluated twice in one call; chains through all transition kinds with explicit "
+            "integrators must stay within (h1 sub-steps) x steps + directions gradient evaluations per transition with "
+            "no repeated evaluation at identical arguments.", "The model is the weakest the property implies (order inside one call not judged).",
+            "DESIGN.md section 3, C18"),
+})
+
 NOT_YET = "check not built yet in this session (in progress; see DESIGN.md section 3 for the planned monitor)"
 
 
